@@ -30,6 +30,10 @@ THEOREMS = [
     "ingest_perm", "ingest_perm_same_order", "ingest_perm_lookup", "tensor_indivs", "padding_shape", "values_aligned",
     "mask_iff_present", "counts_correct", "tensor_times_sorted", "untensor_tensorise", "roundtrip_partial", "roundtrip_fixpoint",
     "roundtrip_counterexample", "rejects_iff_malformed", "events_rejects_malformed",
+    "events_rejects_iff_malformed", "events_first_appearance", "events_unique_check_unreachable", "events_perm",
+    "joint_accepts_iff", "joint_result", "last_visit_is_max", "last_visit_perm", "joint_cross_check_iff", "joint_perm",
+    "joint_event_order_counterexample", "joint_event_order_partial",
+    "covariate_accepts_iff", "covariate_result", "covariate_perm",
 ]
 LEAN = dict(
     props="LeaspyVerif.Props.C14",
@@ -49,6 +53,11 @@ LEAN = dict(
         "values outside the float32 range (|v| > 3.4e38, finite in the table) become inf in the tensor without an error; not generated, not claimed",
         "schema problems the property does not list (missing / swapped / duplicated columns, not a DataFrame) are only required to raise; the exception class is recorded in the evidence",
         "bool-typed TIME / feature columns are numeric for pandas and are accepted as 0/1 by the code; not treated as malformed",
+        "joint layout: the tolerance of the cross check is compared on integers (micro-units) in the model; an observed event dated "
+        "exactly 0.001 before the latest visit is decided by the double-precision subtraction in the code (70.5 - 70.501 is refused, "
+        "1.0 - 1.001 is accepted); the model accepts; such tables are not generated (generated gaps: <= 900 or >= 1001 micro-units)",
+        "the rejection reason (which check raised) is compared with the tag of the model for the event, joint and covariate layouts "
+        "through the text of the message (REASON table); all reasons are LeaspyDataInputError",
     ],
 )
 
@@ -383,6 +392,7 @@ def run_impl(env, case):
         res["phase"]["data"] = "ok"
     except Exception as e:
         res["phase"]["data"] = env.err(e)
+        res["msg"] = str(e)
         res["unchanged"] = unchanged(env, df, snap)
         return res
     res["data_ids"] = [rank_of_value(case["idkind"], i) for i in data.individuals]
@@ -523,6 +533,8 @@ def malformation(case):
         if any(ev[i][1] != 0 for i in before):
             return "event-before-last-visit"
     if lay == "cov":
+        if case["ncov"] < 1:
+            return "no-covariate-name"
         if not rows[0][2]:
             return "no-feature"
         if any(v in ("inf", "-inf") for r in rows for v in r[3]):
@@ -854,6 +866,34 @@ def impl_string(res):
     return "ok " + res["ds"]["str"]
 
 
+# which check raised: tag of the model -> text that the message of the implementation must contain
+REASON = {
+    "idType": ["should identify individuals as string, integer or categories"],
+    "idNa": ["should NOT contain any nan ("],
+    "idNegative": ["should be >= 0"],
+    "idEmpty": ["should be empty"],
+    "timeType": ["`TIME` column should contain numeric values"],
+    "timeNa": ["`TIME` column should NOT contain any nan nor inf"],
+    "duplicate": ["Some raw are duplicated"],
+    "valueType": ["All columns should be of numerical type"],
+    "valueInf": ["Values may be nan but not infinite"],
+    "noRow": ["at least 1 row", "at least 1 feature or an event"],
+    "noFeature": ["at least 1 feature..."],
+    "eventTime": ["Events must be above 0"],
+    "eventCode": ["Events must be stored in type int"],
+    "eventUnique": ["only an unique event_time"],
+    "eventNone": ["There are no event"],
+    "eventCount": ["number of events you provided is different"],
+    "eventBefore": ["Event should happen after or at the last visit"],
+    "covNone": ["at least one covariate name"],
+    "covMissing": ["contains missing values"],
+    "covInteger": ["must contain only integer values"],
+    "covUnique": ["only an unique covariate value per patient"],
+    "covConstant": ["unique value."],
+}
+REASON_LAYOUTS = ("event", "joint", "cov")
+
+
 def compare(chk, env, items):
     """items: [(case, res)] -> send to the model, diff. Returns nothing."""
     lines, owners = [], []
@@ -880,6 +920,12 @@ def compare(chk, env, items):
             impl = impl_string(res)
             if impl != "err:data":
                 chk.disagree(cj, impl[:300], resp, "model rejects with a data-input error")
+            elif case["layout"] in REASON_LAYOUTS:
+                tag = resp[len("err:data:"):]
+                msg = res.get("msg", "")
+                chk.tag("reject_reason[%s]" % case["layout"], tag)
+                if not any(t in msg for t in REASON.get(tag, [])):
+                    chk.disagree(cj, "err:data: " + msg[:160].replace("\n", " "), resp, "rejection reason (which check raised)")
             continue
         if not resp.startswith("ok "):
             chk.disagree(cj, impl_string(res)[:300], resp, "unexpected model response")
@@ -1201,6 +1247,107 @@ def joint_cases(chk):
     return cases
 
 
+def joint_between_cases(chk):
+    """An individual with 2-3 visits whose event lies strictly between its two latest visits (more than the tolerance away from
+    both), next to a second individual with an ordinary observed event; every row order, so that in some of them the event is
+    after the last-listed visit but before the latest one. Observed: refused in every order; censored: accepted in every order."""
+    rng = chk.rng
+    cases = []
+    reps = 4 if chk.tier == "quick" else 20
+    for _ in range(reps):
+        dim = rng.choice([1, 2])
+        n_vis = rng.choice([2, 2, 3])
+        start = rng.randrange(50 * 64, 80 * 64)
+        ages, a = [], start
+        for _k in range(n_vis):
+            ages.append(a * 15625)
+            a += rng.randrange(8, 4 * 64)          # gaps of 1/8 year to 4 years
+        gap = (ages[-1] - ages[-2]) // 15625
+        ev = ages[-2] + rng.randrange(2, gap - 1) * 15625 if gap > 3 else ages[-2] + 2 * 15625
+        code = rng.choice(["1", "1", "0", "2"])
+        other_age = rng.randrange(50 * 64, 80 * 64) * 15625
+        other_code = "1" if code != "2" else rng.choice(["1", "2"])
+        rows = [[0, [t, 0], [g_val(rng, 0.2) for _ in range(dim)], [ev, 0], code] for t in ages]
+        rows.append([1, [other_age, 0], [g_val(rng, 0.0) for _ in range(dim)], [other_age + rng.choice([0, 15625, 1000000]), 0], other_code])
+        kind = rng.choice(ID_KINDS_VALID)
+        swap = rng.random() < 0.5                   # which identifier sorts first must not matter
+        for perm in itertools.permutations(range(len(rows))):
+            rs = [list(rows[k]) for k in perm]
+            if swap:
+                for r in rs:
+                    r[0] = 1 - r[0]
+            cases.append({"layout": "joint", "idkind": kind, "nb": None, "store": "f32", "rows": rs})
+    return cases
+
+
+def cov_within_cases(chk):
+    """A covariate that differs on one row of an individual with 2-3 visits (any position), every row order; and the same table
+    with the covariate made constant within the individual (valid)."""
+    rng = chk.rng
+    cases = []
+    reps = 4 if chk.tier == "quick" else 20
+    for _ in range(reps):
+        dim = rng.choice([1, 2])
+        ncov = rng.choice([1, 2])
+        n_vis = rng.choice([2, 3])
+        vis = g_visit_rows(rng, n_vis, dim, 1, p_nan=0.2)
+        cov0 = [str(rng.choice([0, 1, 2])) for _ in range(ncov)]
+        cov1 = [str(int(c) + 1 + rng.randrange(2)) for c in cov0]
+        rows = [[0, r[1], r[2], list(cov0)] for r in vis]
+        odd = rng.randrange(n_vis)
+        k = rng.randrange(ncov)
+        rows.append([1, g_age_exact(rng), [g_val(rng, 0.0) for _ in range(dim)], list(cov1)])
+        kind = rng.choice(ID_KINDS_VALID)
+        for bad in (True, False):
+            for perm in itertools.permutations(range(len(rows))):
+                rs = [[r[0], list(r[1]), list(r[2]), list(r[3])] for r in (rows[j] for j in perm)]
+                if bad:
+                    for r in rs:
+                        if r[0] == 0 and r[1] == rows[odd][1]:
+                            r[3][k] = str(int(r[3][k]) + 5)
+                cases.append({"layout": "cov", "idkind": kind, "ncov": ncov, "store": "f32", "rows": rs})
+    # no covariate name at all: refused by the constructor of the reader
+    cases.append({"layout": "cov", "idkind": "str", "ncov": 0, "store": "f32",
+                  "rows": [[0, [70 * 1000000, 0], ["1/2"], []], [1, [71 * 1000000, 0], ["1/4"], []]]})
+    return cases
+
+
+def check_order_cases(chk):
+    """Two malformations in one table, the one the code looks at later standing on the earlier row: the rejection reason must be
+    that of the column-wise order of the checks (time column, then indicator column; missing covariate, then fractional one;
+    per-individual uniqueness before the count / the cross check / the constant-covariate check)."""
+    rng = chk.rng
+    cases = []
+    for _ in range(3 if chk.tier == "quick" else 12):
+        t = lambda y: [int(y * 64) * 15625, 0]  # noqa: E731
+        y0 = rng.randrange(50, 80)
+        bad_code = rng.choice(["1/2", "-1", "nan"])
+        bad_time = rng.choice(["nan", [0, 0], [-1000000, 0]])
+        ev = [[0, t(y0 + 5), bad_code], [1, bad_time, "1"], [2, t(y0 + 7), "1"]]
+        cases.append({"layout": "event", "idkind": "str", "nb": None, "rows": ev})
+        cases.append({"layout": "event", "idkind": "str", "nb": None, "rows": [ev[0], ev[2], [0, bad_time, "1"]]})   # + repeated individual
+        cases.append({"layout": "event", "idkind": "int", "nb": 3, "rows": [[0, t(y0 + 5), "2"], [1, t(y0 + 6), bad_code]]})  # count and cell
+        v = lambda: [g_val(rng, 0.0)]  # noqa: E731
+        jr = [[0, t(y0), v(), t(y0 + 5), bad_code], [0, t(y0 + 1), v(), t(y0 + 5), "1"], [1, t(y0), v(), bad_time, "1"]]
+        cases.append({"layout": "joint", "idkind": "str", "nb": None, "store": "f32", "rows": jr})
+        # two events for one individual, one of them observed before the latest visit
+        jr = [[0, t(y0), v(), t(y0 + 5), "1"], [0, t(y0 + 3), v(), t(y0 + 1), "1"], [1, t(y0), v(), t(y0 + 2), "1"]]
+        cases.append({"layout": "joint", "idkind": "str", "nb": None, "store": "f32", "rows": jr})
+        # two events for one individual and a declared count that does not fit
+        jr = [[0, t(y0), v(), t(y0 + 5), "1"], [0, t(y0 + 3), v(), t(y0 + 5), "0"], [1, t(y0), v(), t(y0 + 2), "1"]]
+        cases.append({"layout": "joint", "idkind": "str", "nb": 2, "store": "f32", "rows": jr})
+        # observed event before the latest visit and a declared count that does not fit
+        jr = [[0, t(y0), v(), t(y0 + 1), "1"], [0, t(y0 + 3), v(), t(y0 + 1), "1"], [1, t(y0), v(), t(y0 + 2), "1"]]
+        cases.append({"layout": "joint", "idkind": "str", "nb": 2, "store": "f32", "rows": jr})
+        cr = [[0, t(y0), v(), ["1/2"]], [0, t(y0 + 1), v(), ["1"]], [1, t(y0), v(), ["nan"]]]
+        cases.append({"layout": "cov", "idkind": "str", "ncov": 1, "store": "f32", "rows": cr})
+        cr = [[0, t(y0), v(), ["1", "0"]], [0, t(y0 + 1), v(), ["2", "0"]], [1, t(y0), v(), ["1", "0"]]]   # varies within 0, second constant
+        cases.append({"layout": "cov", "idkind": "str", "ncov": 2, "store": "f32", "rows": cr})
+        cr = [[0, t(y0), v(), ["1", "1/2"]], [0, t(y0 + 1), v(), ["2", "0"]], [1, t(y0), v(), ["1", "0"]]]   # fractional and varying
+        cases.append({"layout": "cov", "idkind": "str", "ncov": 2, "store": "f32", "rows": cr})
+    return cases
+
+
 def cov_cases(chk):
     rng = chk.rng
     cases = []
@@ -1345,6 +1492,9 @@ def run(chk: core.Check):
     handle_table_cases(chk, env, event_cases(chk), "event")
     handle_table_cases(chk, env, joint_cases(chk), "joint")
     handle_table_cases(chk, env, cov_cases(chk), "covariate")
+    handle_table_cases(chk, env, joint_between_cases(chk), "joint-event-between-visits")
+    handle_table_cases(chk, env, cov_within_cases(chk), "covariate-within-individual")
+    handle_table_cases(chk, env, check_order_cases(chk), "order-of-checks")
     handle_table_cases(chk, env, f9_cases(chk), "float32-collision")
     handle_table_cases(chk, env, f9f_cases(chk), "float32-neighbours")
     sort_index_cases(chk, env)
